@@ -112,6 +112,10 @@ type Config struct {
 	Stop func() bool
 	// Root restricts exploration to the subtree below this prefix.
 	Root []int
+	// ShardTop shards by top-level subtree (for bodies whose picks are
+	// interleaved with execution, e.g. schedules): the root execution is run
+	// by every shard, its k-th child subtree only by shard k % NShard.
+	ShardTop bool
 }
 
 // Stats of one exploration.
@@ -126,6 +130,7 @@ type Stats struct {
 func Explore(cfg Config, body func(c *Ctx)) Stats {
 	var st Stats
 	var leaf int64
+	var topChild int64
 	var rec func(prefix []int)
 	stopped := false
 	rec = func(prefix []int) {
@@ -138,6 +143,9 @@ func Explore(cfg Config, body func(c *Ctx)) Stats {
 			return
 		}
 		c := &Ctx{prefix: prefix, leaf: &leaf, shard: cfg.Shard, nshard: cfg.NShard}
+		if cfg.ShardTop {
+			c.nshard = 1
+		}
 		body(c)
 		st.Runs++
 		if !c.skipped {
@@ -161,6 +169,13 @@ func Explore(cfg Config, body func(c *Ctx)) Stats {
 			r := recs[i]
 			if r.N > 1 && (cfg.Bound < 0 || cost+r.Cost <= cfg.Bound) {
 				for alt := 1; alt < r.N; alt++ {
+					if cfg.ShardTop && len(prefix) == len(cfg.Root) && cfg.NShard > 1 {
+						k := topChild
+						topChild++
+						if int(k%int64(cfg.NShard)) != cfg.Shard {
+							continue
+						}
+					}
 					np := make([]int, i+1)
 					for k := 0; k < i; k++ {
 						np[k] = recs[k].C
